@@ -1695,7 +1695,8 @@ class PseudoNetCDFFile(PseudoNetCDFSelfReg, object):
                             axis=di, keepdims=True)
                     else:
                         newvals = np.apply_along_axis(**opts)
-            newvaro = outf.copyVariable(varo, key=vark, withdata=False)
+            newvaro = outf.copyVariable(varo, key=vark, dtype=newvals.dtype,
+                                        withdata=False)
             newvaro[...] = newvals
         if verbose > 0:
             print()
